@@ -327,7 +327,7 @@ func checkSet(t *rapid.T, rec *ev.Recorder, s Set, db, db2 *meta.DB, ep *stor.Ep
 	lt := s.isLT()
 	f := s.facts()
 	var base []Obs
-	consistent, resurrected := true, false
+	resurrected := false
 	for pi, p := range perms {
 		ep.Set(uint64(s.Er))
 		if err := db.ResyncFromBlobstor(&orderedStore{blobs: permuted(blobs, p)}, strictErr); err != nil {
@@ -362,10 +362,6 @@ func checkSet(t *rapid.T, rec *ev.Recorder, s Set, db, db2 *meta.DB, ep *stor.Ep
 			continue
 		}
 		if !slices.Equal(base, v) {
-			if lt {
-				consistent = false
-				continue
-			}
 			var diff []string
 			xp, onlyXP := s.expiredParentFamilies(), true
 			for i := range addrs {
@@ -385,12 +381,12 @@ func checkSet(t *rapid.T, rec *ev.Recorder, s Set, db, db2 *meta.DB, ep *stor.Ep
 	}
 	rec.LabelN("resyncs", int64(len(perms)))
 	if lt {
-		// reported, not failed: see checks.d/C18.json "assumptions"
-		if consistent {
-			rec.Label("lock-and-tombstone:order-independent")
-		} else {
-			rec.Label("lock-and-tombstone:ORDER-DEPENDENT")
-		}
+		// Order independence (1) is asserted for this class like for any other
+		// (since /repo 775d780 tombstones are put last, so a lock indexed by the
+		// rebuild always precedes the tombstone of its target). WHICH status follows
+		// from a LOCK and a TOMBSTONE of one target stays unasserted (ambiguous, see
+		// checks.d/C18.json): oracles (2) and (3) are skipped.
+		rec.Label("lock-and-tombstone:order-independent")
 		return
 	}
 
@@ -658,7 +654,7 @@ func TestC18BatchBoundary(t *testing.T) {
 		return
 	}
 	rapid.Check(t, func(t *rapid.T) {
-		s := genSet(t, genCfg{minN: 2, maxN: 4, cnrs: 1,
+		s := genSet(t, genCfg{allowLT: rapid.IntRange(0, 3).Draw(t, "lt-class") == 0, minN: 2, maxN: 4, cnrs: 1,
 			noExpiredParent: ev.IsOpen("C18", fpExpParent)})
 		rec.Excluded(int64(s.excluded))
 		n := len(s.Members)
